@@ -59,6 +59,14 @@ CHECKS.update({
         technique="Lean 4 proof (arithmetic over Rat, invariant + simulation) + trace monitor on the real loop"),
 })
 
+CHECKS.update({
+    "C07": dict(
+        category="proof",
+        text="Partial. Proved (Lean 4, kernel-evaluated closure certificate over the complete finite transition system, lifted to every event sequence): the command runner sends SIGHUP to the process group whenever stop / cancel / time-out / term arrives while the command runs, whatever it did with its output, kills it two seconds later, returns only after exit and EOF, never signals an exited process; the pinned runner is proved to violate this. Tied to the real runActorCommandWithConsumer by scripted commands (time classes). The conductor's shutdown cascade, the cleanups and process reaping are exercised by fault injection on the real binary (signals at several instants and shutdown stages, failing / hanging / SIGHUP-ignoring commands, -S, evaluation error): termination within a bound, cleanup counts, /proc scan for marked processes.",
+        note="Partial: assumption A (a component terminates once cancelled or once its upstream has terminated) and OS process semantics are observed, not proved. Trusted: Lean kernel (decide +kernel), bash, /proc.",
+        technique="Lean 4 proof over a finite transition system (certificate checked by the kernel) + scripted-command correspondence + end-to-end fault injection"),
+})
+
 NOT_APPLICABLE = [
     {"property_id": "C14", "reason": "data-race freedom is a property of memory accesses under the Go memory model; no executable Lean model compared on values can exhibit an unsynchronised access (DESIGN.md 5/C14)"},
 ]
@@ -115,7 +123,7 @@ def main():
         f.write("\n")
 
 
-HOOK_COMMITS = ["f54323b", "bfaa749", "1959c79", "eda03ea"]
+HOOK_COMMITS = ["f54323b", "bfaa749", "1959c79", "eda03ea", "598ff92"]
 
 if __name__ == "__main__":
     main()
